@@ -227,6 +227,9 @@ func runUfs(c *Case, res *result) (err error) {
 		// fid that another one of them creates
 		seqN := kf - 1
 		creates, uses := map[uint32]bool{}, map[uint32]bool{}
+		for _, f := range fl {
+			uses[f.op.Fid] = true // the requests parked at the cut are outstanding as well
+		}
 		for seqN > 0 && kf-1-seqN < c.Pipe {
 			o := &hist[seqN-1]
 			var cr, us []uint32
